@@ -159,6 +159,8 @@ class Validator:
                 for props in v:
                     if isinstance(props, dict):
                         if self.is_valid_for_version(props, version) is True:
+                            # alternatives can be objects with versioned properties of their own
+                            self.get_versioned_properties(props, version)
                             valid_list.append(props)
                     else:
                         valid_list.append(props)
